@@ -1144,7 +1144,7 @@ spec:
         final(block).cur() == final(block).toks().len(),    // [C03] [C05] the whole block is consumed (finish() must not panic)
 before `let meta_or_section = match block.peek() {`:
     let ghost pre = *block;
-closure 0 `&mut BlockParser<'_, '_>` ret `o: Option<Event<'_>>`:
+?closure 0 `&mut BlockParser<'_, '_>` ret `o: Option<Event<'_>>`:
         requires *old(bp) == pre, pre.wf(), pre.cur() == 0
         ensures final(bp).wf(), final(bp).same(&pre), o.is_some() ==> final(bp).cur() == final(bp).toks().len()
 @*/
